@@ -4,12 +4,14 @@ line `{"engine": ..., ...}`, one response per output line: `{"ok": {...}}` or
 `{"err": "..."}`.  Imports the core-only model and Lean.Data.Json, never Mathlib.
 -/
 import ZenoModel.Driver.SeqEngine
+import ZenoModel.Driver.StoreEngine
 
 open Lean Zeno.Drv
 
 def dispatch (j : Json) : R Json := do
   match (← str j "engine") with
   | "seq" => seqEngine j
+  | "store" => storeEngine j
   | e => throw s!"unknown engine {e}"
 
 def handle (line : String) : String :=
